@@ -340,5 +340,6 @@ def obligations():
     obs.append(Obligation("C12.rename.b", ob_rename, kind="smallscope", functions=[dp.prepare_problem], bound="two streams over labels {A, B, A/B} x three renamings x both listing orders (exhaustive)",
                           doc="RENAME"))
     from . import C06
-    obs += _deps(C06, ("C06.idx.u", "C06.idx.b"), "C12.dep.", "pinch rows of a cascade: the mirror / translation clauses compare pinch temperatures read through pinch_idx")
+    obs += _deps(C06, ("C06.idx.u", "C06.idx.b", "C06.record", "C06.serialise"), "C12.dep.",
+                 "pinch rows of a cascade: the mirror / translation clauses compare pinch temperatures read through pinch_idx; a translated pinch may land on any real value, 0.0 included, and must reach the reported record")
     return obs
